@@ -30,13 +30,19 @@ pub enum Kind {
     LateMem,
     /// reads `samplerate` (host state that a swap must carry over)
     SrPhase,
+    /// indexes a global array (array storage is copied across a swap and rebuilt by `main`)
+    ArrPhase,
+    /// uses a global constant (re-initialised by `main` on the new machine)
+    GlobK,
+    /// calls a closure made by `main`
+    MainCl,
 }
 
 /// Kinds used for generation. `Kind::Gate` (stateful calls in both arms of an `if`) is NOT in this
 /// list: on the pinned tree the VM underflows its state position on such programs (panic with
 /// overflow checks, heap corruption / abort without) even in a fault-free run. That is a crash of
 /// an accepted program (C03/C05 territory, not claimed here) and would only kill workers.
-pub const ALL_KINDS: [Kind; 17] = [
+pub const ALL_KINDS: [Kind; 20] = [
     Kind::Counter,
     Kind::Leaky,
     Kind::Lag2,
@@ -54,6 +60,9 @@ pub const ALL_KINDS: [Kind; 17] = [
     Kind::Late,
     Kind::LateMem,
     Kind::SrPhase,
+    Kind::ArrPhase,
+    Kind::GlobK,
+    Kind::MainCl,
 ];
 
 #[derive(Clone, Copy, Debug, PartialEq, Serialize, Deserialize)]
@@ -122,6 +131,9 @@ impl Voice {
             Kind::Late => "late".into(),
             Kind::LateMem => "latemem".into(),
             Kind::SrPhase => "srphase".into(),
+            Kind::ArrPhase => "arrphase".into(),
+            Kind::GlobK => "globk".into(),
+            Kind::MainCl => "maincl".into(),
         };
         base
     }
@@ -139,7 +151,7 @@ impl Voice {
     pub fn args(&self) -> Vec<String> {
         let x = self.input.render();
         match self.kind {
-            Kind::Counter | Kind::SrPhase => vec![lit(self.p[0])],
+            Kind::Counter | Kind::SrPhase | Kind::ArrPhase | Kind::GlobK | Kind::MainCl => vec![lit(self.p[0])],
             Kind::Leaky => vec![x, lit(self.p[0])],
             Kind::Lag2 | Kind::Mfb | Kind::Mmf => vec![x],
             Kind::Echo => vec![x, lit(self.p[0])],
@@ -249,6 +261,23 @@ impl Voice {
                 "mmf".into(),
                 "fn mmf(x){\n  let a = mem(x)\n  let b = mem(a)\n  self * 0.25 + b\n}".into(),
             )],
+            Kind::ArrPhase => vec![
+                phasor,
+                ("tblarr".into(), "let tblarr = [1.0, 2.5, 4.0, 8.0, 16.0]".into()),
+                (
+                    "arrphase".into(),
+                    "fn arrphase(p){\n  let i = phasor(p)\n  tblarr[i]\n}".into(),
+                ),
+            ],
+            Kind::GlobK => vec![
+                ("gconst".into(), "let gconst = 2.5".into()),
+                ("globk".into(), "fn globk(inc){\n  self + inc * gconst\n}".into()),
+            ],
+            Kind::MainCl => vec![
+                ("mkmul".into(), "fn mkmul(q){\n  |x| x * q\n}".into()),
+                ("gmul".into(), "let gmul = mkmul(3.0)".into()),
+                ("maincl".into(), "fn maincl(inc){\n  gmul(self + inc) * 0.25\n}".into()),
+            ],
             Kind::SrPhase => vec![(
                 "srphase".into(),
                 "fn srphase(f){\n  self + f / samplerate\n}".into(),
@@ -306,7 +335,7 @@ pub struct Model {
 impl Model {
     pub fn zero(v: &Voice) -> Model {
         let ns = match v.kind {
-            Kind::Counter | Kind::Leaky | Kind::Clk | Kind::SrPhase => 1,
+            Kind::Counter | Kind::Leaky | Kind::Clk | Kind::SrPhase | Kind::ArrPhase | Kind::GlobK | Kind::MainCl => 1,
             Kind::Lag2 | Kind::Mfb | Kind::Pair | Kind::Nest | Kind::CntMem | Kind::Late => 2,
             Kind::Gate | Kind::Wide | Kind::Deep | Kind::Mmf | Kind::LateMem => 3,
             Kind::Echo => 0,
@@ -358,6 +387,18 @@ impl Model {
             }
             Kind::SrPhase => {
                 self.s[0] += p[0] / sample_rate;
+                self.s[0]
+            }
+            Kind::ArrPhase => {
+                let i = Self::phasor(&mut self.s[0], p[0]) as usize;
+                [1.0, 2.5, 4.0, 8.0, 16.0][i.min(4)]
+            }
+            Kind::GlobK => {
+                self.s[0] += p[0] * 2.5;
+                self.s[0]
+            }
+            Kind::MainCl => {
+                self.s[0] = (self.s[0] + p[0]) * 3.0 * 0.25;
                 self.s[0]
             }
             Kind::Leaky => {
@@ -489,6 +530,8 @@ pub fn gen_voice(rng: &mut Rng, id: u32, kind: Kind, n_in: u32, max_delay: u32) 
             p[0] = small(rng)
         }
         Kind::SrPhase => p[0] = *rng.pick(&[110.0, 440.0, 1000.0, 12000.0]),
+        Kind::ArrPhase => p[0] = rng.range(2, 5) as f64,
+        Kind::GlobK | Kind::MainCl => p[0] = small(rng),
         Kind::Leaky => p[0] = gain(rng),
         Kind::Late | Kind::LateMem => {
             p[0] = small(rng);
@@ -527,10 +570,11 @@ pub fn gen_voice(rng: &mut Rng, id: u32, kind: Kind, n_in: u32, max_delay: u32) 
 /// has no editable constant.
 pub fn tweak_constant(rng: &mut Rng, v: &mut Voice) -> bool {
     match v.kind {
-        Kind::Counter | Kind::Pair | Kind::Nest | Kind::Deep | Kind::CntMem | Kind::Wide | Kind::Clk | Kind::SrPhase => {
+        Kind::Counter | Kind::Pair | Kind::Nest | Kind::Deep | Kind::CntMem | Kind::Wide | Kind::Clk | Kind::SrPhase | Kind::GlobK | Kind::MainCl => {
             v.p[0] += (rng.range(1, 8) as f64) * 0.25;
             true
         }
+        Kind::ArrPhase => false,
         Kind::Leaky => {
             v.p[0] = if v.p[0] == 0.5 { 0.25 } else { 0.5 };
             true
